@@ -167,7 +167,9 @@ func c09BuildSplit(t *rapid.T) (c09SplitProg, bool) {
 			default:
 				upd = []ts.Stmt{ts.If{Cond: ts.Cmp{Op: ">", L: cnt, R: ts.IntLit{V: 0}}, Then: []ts.Stmt{ts.IncDec{Name: "lcount", Inc: true}}}}
 			}
-			f.Stmts = append(f.Stmts, ts.FuncDef{Name: "Lbump", Rets: []ts.Type{ts.TInt}, Body: append(upd, ts.Return{Vals: []ts.Expr{cnt}})})
+			// the public function goes through a PRIVATE one of its file (kept alive by every importer that uses the public one)
+			f.Stmts = append(f.Stmts, ts.FuncDef{Name: "lhelp", Params: []ts.Param{{Name: "x", Ty: ts.TInt}}, Rets: []ts.Type{ts.TInt}, Body: []ts.Stmt{ts.Return{Vals: []ts.Expr{ts.VarRef{Name: "x", Ty: ts.TInt}}}}})
+			f.Stmts = append(f.Stmts, ts.FuncDef{Name: "Lbump", Rets: []ts.Type{ts.TInt}, Body: append(upd, ts.Return{Vals: []ts.Expr{ts.Call{Name: "lhelp", Args: []ts.Expr{cnt}, Rets: []ts.Type{ts.TInt}}}})})
 			call := ts.Call{Alias: alias, Name: "Lbump", Rets: []ts.Type{ts.TInt}}
 			if alias == "lc" && diamond {
 				call = ts.Call{Alias: "ld", Name: "Ld", Rets: []ts.Type{ts.TInt}} // main reaches lc only through ld
